@@ -206,6 +206,27 @@ func registerIntrinsics(e *Engine) {
 		}
 		return &AbsBytes{Len: n, Name: "opaque"}
 	}
+	// verifRunUntilBlocked(f): runs f as if on its own goroutine until it either
+	// returns (false) or parks forever on a channel operation that cannot
+	// proceed (true). A parked activation keeps every mutex it holds; its
+	// deferred calls do not run.
+	in["verifRunUntilBlocked"] = func(p *Path, caller *frame, pos token.Pos, args []Value) (res Value) {
+		depth := p.depth
+		p.suspendable++
+		defer func() {
+			p.suspendable--
+			if r := recover(); r != nil {
+				if _, ok := r.(suspendSignal); ok {
+					p.depth = depth
+					res = p.ts.Bool(true)
+					return
+				}
+				panic(r)
+			}
+		}()
+		p.call(caller, pos, args[0], nil)
+		return p.ts.Bool(false)
+	}
 	// taint
 	in["verifTaintString"] = func(p *Path, caller *frame, pos token.Pos, args []Value) Value {
 		s := args[0].(StringV)
